@@ -38,7 +38,7 @@ def chars_jobs(ctx, invariants, ops, nontrivial, pairs_quick=4):
         k = ctx.seed % len(pool)
         rot = pool[k:] + pool[:k]
         # always keep a 1-char pair and a long self-overlapping pair in the quick set
-        chosen = [("<", ">"), ("<!-- <", "> -->")]
+        chosen = [("<", ">"), ("<!-- <", "> -->")][:max(1, pairs_quick)]
         for p in rot:
             if p not in chosen and len(chosen) < pairs_quick:
                 chosen.append(p)
@@ -52,7 +52,7 @@ def chars_jobs(ctx, invariants, ops, nontrivial, pairs_quick=4):
         else:
             al = alphabet(ds, de, "aé")
             n = 6 if ctx.quick else 8
-            if len(al) >= 8 or (ctx.quick and (ds, de) != chosen[1]):
+            if len(al) >= 8 or (ctx.quick and (len(chosen) < 2 or (ds, de) != chosen[1])):
                 n -= 1
         ctx.job("chars[%s|%s]" % (ds, de),
                 gens=[{"base": "GenChars", "consts": {"Alphabet": Chars("".join(al)), "N": n}}],
@@ -115,9 +115,26 @@ def junk_jobs(ctx, invariants, ops, nontrivial, count=None, maxlen=None):
 
 def check_C01(ctx):
     ops = [{"op": "clean"}, {"op": "list"}, {"op": "list_json"}, {"op": "list_all"}, {"op": "list_all_json"}]
-    chars_jobs(ctx, ["Inv_C01"], ops, None, pairs_quick=3)
+    q = ctx.quick
+    chars_jobs(ctx, ["Inv_C01"], ops, None, pairs_quick=1 if q else 4)
+    # tags built from atoms: blank bodies, stray delimiters, elements with every kind of attribute, multi-byte ends
+    for (ds, de) in ([("<", ">"), ("《", "》")] if q else [("<", ">"), ("《", "》"), ("<!-- <", "> -->"), ("%%", "%%"), (" <", " >")]):
+        atoms = [ds, de, ds + "rm name='a'" + de, ds + "rm name='a' unwrap-block" + de, ds + "/rm" + de,
+                 ds + "tl to='2000-01-01 00:00:00'" + de, ds + "/tl" + de, ds + " " + de, "x", "\n", " ", "é"]
+        ctx.job("atoms[%s|%s]" % (ds, de),
+                gens=[{"base": "GenAtoms", "consts": {"Atoms": [Chars(a) for a in atoms], "N": 4 if q else 5}}],
+                invariants=["Inv_C01"], ops=ops, cfg={"ds": ds, "de": de}, nontrivial=has_tag_token)
+    # unwrap-blocks with tags sitting on their wrapper lines (children merged into head and tail), nesting
+    gens = [lines_gen(6 if q else 8, 3, 3, ["Ru", "R", "P"], blank=False),
+            lines_gen(7 if q else 9, 2, 2, ["Ru", "Pu", "R"], blank=True, base=1),
+            lines_gen(14, 3, 5, ["Ru", "R", "P", "Pu", "T", "S"], free=(0, 2), ws=(2,), simulate=(40 if q else 5000, 14))]
+    ctx.job("unwrap-wrapper-tags", gens=gens, invariants=["Inv_C01"], ops=ops, cfg={"ds": "<", "de": ">"}, nontrivial=has_ready)
     junk_jobs(ctx, ["Inv_C01"], ops, None)
-
+    # bad configuration strings must not panic either
+    ctx.job("odd-config", gens=[dict(lines_gen(5, 2, 2, ["T", "F", "R", "Ru"], blank=False),
+                                     cfg={"off": off, "targets": targets, "now": [0, 0]})
+                                for (off, targets) in [("", []), ("UTC", ["a"]), ("+25:00", ["", "a"])]],
+            invariants=["Inv_C01"], ops=ops, cfg={"ds": "<", "de": ">"}, nontrivial=None)
 
 
 PAST = "2000-01-01 00:00:00"
@@ -157,52 +174,71 @@ def has_ready(b):
 LIST_OPS = [{"op": "clean"}, {"op": "list_json"}, {"op": "list"}, {"op": "list_all_json"}, {"op": "list_all"}]
 
 
-def block_jobs(ctx, invariants, ops, cfgs=None):
+def block_jobs(ctx, invariants, ops, lite=False):
+    """G_block: default-strategy elements, tags alone on their lines.  quick: one job; lite: smaller (heavy predicates)"""
     q = ctx.quick
-    cfg = {"ds": "<", "de": ">"}
+    d = 2 if (q and lite) else 0
+    html = {"ds": "<!-- <", "de": "> -->"}
+    if q:
+        gens = [lines_gen(6 - d, 2, 2, ["R", "P", "S", "U"], ws=(2,)),
+                lines_gen(7 - d, 1, 1, ["R"], base=0, ws=(1,)),
+                lines_gen(6 - d, 1, 1, ["R"], base=1, ws=(1,)),
+                lines_gen(7 - d, 1, 2, ["R"], base=0, blank=True),
+                lines_gen(6 - d, 2, 2, ["R", "P"], base=1, blank=False),
+                lines_gen(5, 2, 2, ["R", "P"], unit="\t", base=1, ws=(1,)),
+                lines_gen(5, 2, 2, ["T", "F"], unit="    ", base=0, suffix="é"),
+                lines_gen(14, 3, 5, ["R", "P", "S", "U", "T", "F"], ws=(2,), base=ctx.seed % 2, simulate=(15 if lite else 80, 14)),
+                dict(lines_gen(5 - d // 2, 2, 2, ["R", "P", "T"], ws=(2,)), cfg=html)]
+        ctx.job("block", gens=gens, invariants=invariants, ops=ops, cfg={"ds": "<", "de": ">"}, nontrivial=has_ready)
+        return
     sets = [
-        ("block-mixed", [lines_gen(6 if q else 7, 2, 2 if q else 3, ["R", "P", "S", "U"], ws=(2,))]),
-        ("block-one", [lines_gen(7 if q else 9, 1, 1, ["R"], base=0, ws=(1,)),
-                       lines_gen(7 if q else 9, 1, 1, ["R"], base=1, ws=(1,))]),
-        ("block-two", [lines_gen(8 if q else 10, 1, 2, ["R"], base=0, ws=()),
-                       lines_gen(7 if q else 9, 2, 2, ["R", "P"], base=1, ws=())]),
-        ("block-tab-mb", [lines_gen(6 if q else 7, 2, 2, ["R", "P"], unit="\t", base=1, ws=(1,)),
-                          lines_gen(6 if q else 7, 2, 2, ["T", "F"], unit="    ", base=0, suffix="é")]),
-        ("block-sim", [lines_gen(14, 3, 5, ["R", "P", "S", "U", "T", "F"], ws=(2,), base=ctx.seed % 2,
-                                 simulate=(100 if q else 20000, 14))]),
+        ("block-mixed", [lines_gen(7, 2, 3, ["R", "P", "S", "U"], ws=(2,))]),
+        ("block-one", [lines_gen(9, 1, 1, ["R"], base=0, ws=(1,)), lines_gen(9, 1, 1, ["R"], base=1, ws=(1,))]),
+        ("block-two", [lines_gen(10, 1, 2, ["R"], base=0, ws=()), lines_gen(9, 2, 2, ["R", "P"], base=1, ws=())]),
+        ("block-tab-mb", [lines_gen(7, 2, 2, ["R", "P"], unit="\t", base=1, ws=(1,)),
+                          lines_gen(7, 2, 2, ["T", "F"], unit="    ", base=0, suffix="é")]),
+        ("block-sim", [lines_gen(14, 3, 5, ["R", "P", "S", "U", "T", "F"], ws=(2,), base=ctx.seed % 2, simulate=(20000, 14))]),
+        ("block-html", [dict(lines_gen(7, 2, 2, ["R", "P", "T"], ws=(2,)), cfg=html)]),
+    ]
+    for (name, gens) in sets:
+        ctx.job(name, gens=gens, invariants=invariants, ops=ops, cfg={"ds": "<", "de": ">"}, nontrivial=has_ready)
+
+
+def unwrap_jobs(ctx, invariants, ops, lite=False):
+    q = ctx.quick
+    d = 2 if (q and lite) else 0
+    cfg = {"ds": "<", "de": ">"}
+    if q:
+        gens = [lines_gen(8 - d, 1, 1, ["Ru"], free=(1,), blank=True),
+                lines_gen(6, 1, 1, ["Ru"], free=(0, 2), blank=False),
+                lines_gen(6 - d // 2, 2, 2, ["Ru", "R", "P"], free=(1,), blank=False),
+                lines_gen(10 - d, 2, 2, ["Ru"], blank=False),
+                lines_gen(8 - d // 2, 2, 2, ["Ru", "Pu"], base=1, blank=False),
+                lines_gen(6, 1, 1, ["Tu"], unit="\t", free=(0, 2), blank=False, suffix="あ"),
+                lines_gen(16, 3, 4, ["Ru", "R", "P", "Pu", "S"], free=(0, 1, 2), ws=(2,), simulate=(15 if lite else 80, 16))]
+        ctx.job("unwrap", gens=gens, invariants=invariants, ops=ops, cfg=cfg, nontrivial=has_ready)
+        return
+    sets = [
+        ("unwrap-one", [lines_gen(8, 1, 1, ["Ru"], free=(0, 1, 2), blank=True), lines_gen(10, 1, 1, ["Ru"], free=(1,), blank=True)]),
+        ("unwrap-mixed", [lines_gen(8, 2, 2, ["Ru", "R", "P"], free=(1,), blank=False)]),
+        ("unwrap-nested", [lines_gen(12, 2, 2, ["Ru"], blank=False), lines_gen(11, 2, 2, ["Ru", "Pu"], base=1, blank=False),
+                           lines_gen(13, 3, 3, ["Ru"], blank=False)]),
+        ("unwrap-tab", [lines_gen(8, 1, 1, ["Tu"], unit="\t", free=(0, 1, 2), blank=False, suffix="あ")]),
+        ("unwrap-sim", [lines_gen(16, 3, 4, ["Ru", "R", "P", "Pu", "S"], free=(0, 1, 2), ws=(2,), simulate=(20000, 16))]),
     ]
     for (name, gens) in sets:
         ctx.job(name, gens=gens, invariants=invariants, ops=ops, cfg=cfg, nontrivial=has_ready)
-    # the same family under a long, space-containing delimiter pair
-    ctx.job("block-html", gens=[lines_gen(6 if q else 7, 2, 2, ["R", "P", "T"], ws=(2,))], invariants=invariants, ops=ops,
-            cfg={"ds": "<!-- <", "de": "> -->"}, nontrivial=has_ready)
 
 
-def unwrap_jobs(ctx, invariants, ops):
+def inline_jobs(ctx, invariants, ops, lite=False):
     q = ctx.quick
-    cfg = {"ds": "<", "de": ">"}
-    sets = [
-        ("unwrap-one", [lines_gen(8, 1, 1, ["Ru"], free=(1,), blank=True),
-                        lines_gen(7, 1, 1, ["Ru"], free=(0, 2), blank=False)] if q else
-                       [lines_gen(8, 1, 1, ["Ru"], free=(0, 1, 2), blank=True), lines_gen(10, 1, 1, ["Ru"], free=(1,), blank=True)]),
-        ("unwrap-mixed", [lines_gen(7 if q else 8, 2, 2, ["Ru", "R", "P"], free=(1,), blank=False)]),
-        ("unwrap-nested", [lines_gen(10 if q else 12, 2, 2, ["Ru"], blank=False),
-                           lines_gen(9 if q else 11, 2, 2, ["Ru", "Pu"], base=1, blank=False)]),
-        ("unwrap-tab", [lines_gen(7 if q else 8, 1, 1, ["Tu"], unit="\t", free=(0, 2) if q else (0, 1, 2), blank=False, suffix="あ")]),
-        ("unwrap-sim", [lines_gen(16, 3, 4, ["Ru", "R", "P", "Pu", "S"], free=(0, 1, 2), ws=(2,),
-                                  simulate=(100 if q else 20000, 16))]),
-    ]
-    for (name, gens) in sets:
-        ctx.job(name, gens=gens, invariants=invariants, ops=ops, cfg=cfg, nontrivial=has_ready)
-
-
-def inline_jobs(ctx, invariants, ops):
-    q = ctx.quick
+    gens = []
     for (ds, de) in [("<", ">"), ("/* <", "> */")]:
         atoms = [ds + "rm name='a'" + de, ds + "rm name='b'" + de, ds + "/rm" + de, "x", "y;", "\n", "  ", "é"]
-        ctx.job("inline[%s|%s]" % (ds, de),
-                gens=[{"base": "GenAtoms", "consts": {"Atoms": [Chars(a) for a in atoms], "N": 5 if q else 6}}],
-                invariants=invariants, ops=ops, cfg={"ds": ds, "de": de}, nontrivial=has_ready)
+        n = 6 if not q else (4 if (lite or ds != "<") else 5)
+        gens.append({"base": "GenAtoms", "consts": {"Atoms": [Chars(a) for a in atoms], "N": n}, "cfg": {"ds": ds, "de": de}})
+    ctx.job("inline", gens=gens if not (q and lite) else gens[:1], invariants=invariants, ops=ops, cfg={"ds": "<", "de": ">"},
+            nontrivial=has_ready)
 
 
 def check_C02(ctx):
@@ -247,23 +283,23 @@ def check_C14(ctx):
 
 def check_C15(ctx):
     ops = [{"op": "clean"}, {"op": "list_json"}, {"op": "list"}, {"op": "list_json"}]
-    block_jobs(ctx, ["Inv_C15"], ops)
-    unwrap_jobs(ctx, ["Inv_C15"], ops)
-    inline_jobs(ctx, ["Inv_C15"], ops)
+    block_jobs(ctx, ["Inv_C15"], ops, lite=True)
+    unwrap_jobs(ctx, ["Inv_C15"], ops, lite=True)
+    inline_jobs(ctx, ["Inv_C15"], ops, lite=True)
 
 
 def check_C16(ctx):
     ops = [{"op": "list_json"}, {"op": "list"}, {"op": "list_all_json"}, {"op": "list_all"}]
-    block_jobs(ctx, ["Inv_C16"], ops)
-    unwrap_jobs(ctx, ["Inv_C16"], ops)
-    inline_jobs(ctx, ["Inv_C16"], ops)
+    block_jobs(ctx, ["Inv_C16"], ops, lite=True)
+    unwrap_jobs(ctx, ["Inv_C16"], ops, lite=True)
+    inline_jobs(ctx, ["Inv_C16"], ops, lite=True)
 
 
 def check_C17(ctx):
     ops = [{"op": "list_json"}, {"op": "list_all_json"}]
-    block_jobs(ctx, ["Inv_C17"], ops)
-    unwrap_jobs(ctx, ["Inv_C17"], ops)
-    ctx.job("pending-many", gens=[lines_gen(9 if ctx.quick else 11, 2, 4, ["R", "P"], blank=False)],
+    block_jobs(ctx, ["Inv_C17"], ops, lite=True)
+    unwrap_jobs(ctx, ["Inv_C17"], ops, lite=True)
+    ctx.job("pending-many", gens=[lines_gen(8 if ctx.quick else 11, 2, 4, ["R", "P"], blank=False)],
             invariants=["Inv_C17"], ops=ops, cfg={"ds": "<", "de": ">"}, nontrivial=has_ready)
 
 
